@@ -7,7 +7,10 @@
    the goroutines is a sequence of steps.
 
    Routes: key = prefix (numbered), attrs = the (local-pref, communities) tuple
-   that Advertisement.Equal compares (numbered).  Go map iteration order is not
+   that Advertisement.Equal compares (numbered).
+   ASSUMPTION: a key (Go: Prefix.String()) determines the NLRI on the wire and
+   vice versa; advertisements whose address has bits beyond the mask (two keys,
+   one NLRI) are outside the model (Proofs/SessionWireP.v nlri_inj, alias_example).  Go map iteration order is not
    computed: the flush events carry the order as an argument (checked
    nondeterminism) and the theorems hold for every order.
 
